@@ -25,6 +25,9 @@ def tdm_script(rng, with_params=False, with_loop=False):
     lines.append("")
     if rng.random() < 0.3:
         lines.append('str src9 = "p%d"' % rng.randint(0, 2))         # a string that merely spells a p-name; never passed to a gate
+    if with_loop and rng.random() < 0.4:
+        # a loop whose variable is called like a p-array declared AFTER the loop (the name is free again when the loop has ended)
+        lines.append("for int p%d in 0:2\n    Vac | p%d" % ((rng.randint(0, 1),) * 2))
     npar = rng.randint(0, 4)
     names = []
     for k in range(npar):
